@@ -60,3 +60,23 @@ MANIFEST_TEXT = {
         "level_note": _NOTE,
     },
 }
+
+
+def _reg(pid, level, rule, floors, technique, design_ref, level_text, **kw):
+    META[pid] = _m(level, rule, floors, **kw)
+    MANIFEST_TEXT[pid] = {"technique": technique, "design_ref": design_ref, "level_text": level_text, "level_note": _NOTE}
+
+
+_reg(
+    "C05",
+    "exploration",
+    "cases = registered testcases at their own configuration + 18 interface stress programs (unused / duplicated / constant / "
+    "pass-through outputs, nested pytrees, zero-arg, bool/int/uint8/float16/complex inputs, input_params) x {single, double} x 8 "
+    "naming configurations (default, legal, 6 adversarial). Each export's graph.input/graph.output is compared with "
+    "jax.eval_shape at two prime bindings of the symbols. evaluations = exports examined; non-trivial = >= 1 interface value "
+    "checked, or an adversarial naming that was explicitly rejected; distinct = (program, configuration).",
+    (1300, 1300, 3000, 3000),
+    "artefact invariant monitor: graph.input/graph.output of every export vs jax.eval_shape and the to_onnx arguments",
+    "DESIGN.md 3/C05",
+    "Exploration over the registry and interface stress programs x naming/precision configurations; rules are those of the statement (count, order, names, dtype class, float width, int widening, rank, static dims, symbol names).",
+)
